@@ -174,3 +174,77 @@ def backward_sources(fn, operand, stop_locals):
                         if pr != "*" and pr[0] == "i":
                             st.append(pr[1])
     return roots
+
+
+def refined_lock_effects(prog, base, ofn, op_path, pv, call_effect):
+    """Lock effects where each call site of the operator function `ofn`
+    contributes only the effects of the BinaryOp variants that can reach its
+    `op` argument there (provenance query), instead of the union over all
+    operators.  Returns (effects, eff_by_op, site_variants)."""
+    import mir as _mir
+    variants = prog.enum_variant_names("ast::BinaryOp")
+    vf = _mir.VariantFlow(ofn, [(op_path, "ast::BinaryOp")])
+    eff_by_op = {}
+    for v in variants:
+        e = set()
+        for bb in vf.blocks_for((v,)):
+            c = ofn.call_at(bb)
+            if c is not None:
+                e |= call_effect(prog, base, ofn, c)
+        eff_by_op[v] = e
+    ai = op_path[0][1] - 1
+    site_variants = {}
+    for c in prog.callers_of(ofn.path):
+        o = pv.origins(c.fn, c.args[ai])
+        vs = set()
+        exact = True
+        for x in o:
+            if x[0] == "agg" and x[4] == "ast::BinaryOp":
+                vs.add(x[5])
+            elif x[0] in ("unknown", "param", "call", "op"):
+                exact = False
+        if not exact or not vs:
+            vs = set(variants)
+        site_variants[(c.fn.path, c.bb)] = vs
+
+    def site_effect(c):
+        out = set()
+        for v in site_variants.get((c.fn.path, c.bb), variants):
+            out |= eff_by_op.get(v, set())
+        return out
+
+    eff = {p: set() for p in prog.fns}
+    changed = True
+    while changed:
+        changed = False
+        for p, f in prog.fns.items():
+            cur = eff[p]
+            n = len(cur)
+            if not f.full:
+                cur |= base.get(p, set())
+            else:
+                for c in f.calls():
+                    if c.is_ptr:
+                        for q in prog.fnptr_targets(c):
+                            cur |= eff.get(q, set())
+                        continue
+                    t = _mir.mutex_locked_type(c)
+                    if t is not None:
+                        cur.add(t)
+                    if c.res == ofn.path:
+                        cur |= site_effect(c)
+                    else:
+                        cur |= eff.get(c.res, set())
+                # closures / fn items created here run on behalf of this fn
+                for q in prog.callees(f):
+                    g = prog.fns.get(q)
+                    if g is not None and (g.is_closure and g.parent == f.root_fn().path):
+                        cur |= eff.get(q, set())
+                for c in f.calls():
+                    for a in c.args:
+                        k = _mir.op_const(a)
+                        if k and "fn" in k:
+                            cur |= eff.get(k["fn"], set())
+            if len(cur) != n:
+                changed = True
+    return eff, eff_by_op, site_variants
